@@ -170,6 +170,22 @@ theorem date_range_correct (s e : W) (im iM : Bool) (ns : W)
       Bool.false_and, Bool.true_and, if_true, if_false, Bool.false_eq_true, decide_eq_true_eq,
       ne_eq, hs, he, not_false_eq_true, decide_true, decide_false] <;> omega
 
+/-- an open end of a date range (what `parseEndpoints` passes since fix 53d92a2: the end of the int64
+    range, exclusive) puts no upper limit on any representable timestamp -/
+theorem date_range_open_end (s ns : W) (im : Bool) (hs : s.toInt ≠ maxI64) (hn : ns.toInt ≠ maxI64) :
+    rangeMatches (some (i2f s)) (some (i2f (BitVec.ofInt 64 maxI64))) (some im) (some false) (i2f ns) = true ↔
+      (if im then s.toInt ≤ ns.toInt else s.toInt < ns.toInt) := by
+  have he : (BitVec.ofInt 64 maxI64).toInt = maxI64 := by decide
+  rw [date_range_correct s _ im false ns hs (by rw [he]; decide), he]
+  have hlt : ns.toInt < 2 ^ 63 := by
+    have := @BitVec.toInt_lt 64 ns
+    omega
+  unfold maxI64 at *
+  simp only [Bool.false_eq_true, if_false]
+  constructor
+  · intro h; exact h.1
+  · intro h; exact ⟨h, by omega⟩
+
 /-- `min > max` (after adjustment) matches nothing -/
 theorem empty_range (mn mx : Option W) (im iM : Option Bool) (d : W)
     (h : (adjustBounds mn mx im iM).1 > (adjustBounds mn mx im iM).2) :
